@@ -683,7 +683,7 @@ def recording_constructions():
     def wrap(cls, orig):
         def init(self, *a, **k):
             if "_verif_kwargs" not in self.__dict__ and not a:
-                self.__dict__["_verif_kwargs"] = (cls.__name__, {n: v for n, v in k.items() if n != "random_state"})
+                self.__dict__["_verif_kwargs"] = (type(self).__name__, {n: v for n, v in k.items() if n != "random_state"})
             return orig(self, *a, **k)
         return init
     for cls in classes:
